@@ -154,3 +154,25 @@ Example c18_nonvacuous_unknown :
   memoize ctx_amd64 [102; 111; 111] = None /\ get_always ctx_amd64 (fun _ _ => 0) [102; 111; 111] = Panic 1 /\
   get_register ctx_amd64 (fun _ _ => 0) [102; 111; 111] VAll = Ret None.
 Proof. repeat split; vm_compute; reflexivity. Qed.
+
+(* F-C18b (known finding): the class excluded by the hypothesis "s holds only known names" in
+   c18_unknown_absent_no_panic / c18_enumerations.  [known_unknown_member c s] is that class; the
+   witness shows the checked accessor and the set enumeration reach the unreachable!() arm. *)
+Definition known_unknown_member (c : ctx_table) (s : list name) : bool :=
+  existsb (fun a => negb (is_some (memoize c a))) s.
+Lemma c18_known_class_complement : forall c s,
+  known_unknown_member c s = false -> forall a, In a s -> memoize c a <> None.
+Proof.
+  intros c s H a Ha E. unfold known_unknown_member in H.
+  assert (X : existsb (fun a => negb (is_some (memoize c a))) s = true).
+  { apply existsb_exists. exists a. split; [exact Ha | rewrite E; reflexivity]. }
+  rewrite X in H. discriminate.
+Qed.
+Print Assumptions c18_known_class_complement.
+Theorem c18_unknown_member_known_witness :
+  let foo : name := [102; 111; 111] in let rf : regfile := fun _ _ => 0 in
+  In ctx_x86 all_contexts /\ known_unknown_member ctx_x86 [foo] = true /\ memoize ctx_x86 foo = None /\
+  get_register ctx_x86 rf foo (VSome [foo]) = Panic 1 /\
+  cpu_valid_registers ctx_x86 rf (VSome [foo]) = Panic 1.
+Proof. cbv zeta. split; [vm_compute; tauto|]. repeat split; vm_compute; reflexivity. Qed.
+Print Assumptions c18_unknown_member_known_witness.
